@@ -1,7 +1,7 @@
 (** * C20 - Emitted events carry exactly the quantities that changed.
     Every event is [name, (caller, round, epoch) topics, (caller, round, epoch, payload...)];
     [event_hdr e] is those six numbers of the transaction's environment. *)
-From LP Require Import Proofs.Tactics Proofs.LedgerBase Proofs.Resume Proofs.Frames Proofs.Settle Proofs.Confirm Proofs.Events Proofs.Examples.
+From LP Require Import Proofs.Tactics Proofs.LedgerBase Proofs.Resume Proofs.Frames Proofs.Settle Proofs.Confirm Proofs.Events Proofs.Examples Proofs.Events2.
 Open Scope N_scope.
 
 Theorem C20_confirm : forall e w n w',
@@ -56,6 +56,28 @@ Theorem C20_select : forall (H : list N -> list N) e b w w' x,
   (x = 1 /\ evs w' = evs w).
 Proof. exact select_events. Qed.
 
+(** the distribution step: gt2 emits one completion event whose payload is the number of additional
+    winners (= the growth of the winners counter); the v1 family emits none; none when interrupted *)
+Theorem C20_distribute : forall (H : list N -> list N) v2 e b w w' x,
+  distribute_guaranteed_tickets H v2 e b w = Ok (w', x) ->
+  (x = 1 /\ evs w' = evs w) \/
+  (x = 0 /\ evs w' = (if v2 then [ev EvDistributeDone (event_hdr e ++ [nr_winning (st w') - nr_winning (st w)])] else []) ++ evs w).
+Proof. exact distribute_events. Qed.
+
+(** v2 blacklisting / refunding a batch: the refund events of the common part (C20_blacklist_refunds),
+    then - for addUsersToBlacklist - one event with the number and the list of participants;
+    un-blacklisting: one event with the list *)
+Theorem C20_v2_blacklist : forall e w l w' (with_event : bool),
+  blacklist_endpoint Gt2 with_event e w l = Ok w' ->
+  exists w1, add_users_to_blacklist e w l = Ok w1 /\
+    evs w' = (if with_event then [ev EvBlacklist (event_hdr e ++ N.of_nat (length l) :: l)] else []) ++ evs w1.
+Proof. exact blacklist_v2_event. Qed.
+
+Theorem C20_v2_unblacklist : forall e w l w',
+  unblacklist_endpoint Gt2 e w l = Ok w' ->
+  exists w2, evs w' = ev EvUnblacklist (event_hdr e ++ N.of_nat (length l) :: l) :: evs w2 /\ evs w2 = evs w.
+Proof. exact unblacklist_v2_event. Qed.
+
 (** v2: allocation batch, schedule change, claim payout *)
 Theorem C20_v2_add_tickets : forall e w l w',
   add_tickets_v2 e w l = Ok w' ->
@@ -96,6 +118,9 @@ Print Assumptions C20_claim_refund.
 Print Assumptions C20_blacklist_refunds.
 Print Assumptions C20_filter.
 Print Assumptions C20_select.
+Print Assumptions C20_distribute.
+Print Assumptions C20_v2_blacklist.
+Print Assumptions C20_v2_unblacklist.
 Print Assumptions C20_v2_add_tickets.
 Print Assumptions C20_v2_schedule.
 Print Assumptions C20_v2_claim_payout.
